@@ -91,6 +91,9 @@ func genAdd(t *rapid.T, kind string) Step {
 	if kind == qadapt.KindMQ && rapid.Bool().Draw(t, "ctrl") {
 		st.Lane = qadapt.LaneCtrl
 	}
+	if st.Op == "add" && kind != qadapt.KindSync && rapid.IntRange(0, 3).Draw(t, "anywayadd") == 0 {
+		st.Anyway = true // add through the Add*Anyway entry point (where the lane is not full)
+	}
 	return st
 }
 
@@ -255,6 +258,15 @@ func ExecCtl(c CaseCtl) *vkit.Result {
 			add := q.Add
 			if prior {
 				add = q.AddPrior
+			} else if st.Anyway && q.AddAnyway != nil {
+				full := false
+				for _, w := range wants {
+					full = full || w == qadapt.Full
+				}
+				if !full {
+					add = q.AddAnyway
+					res.Class("add-through-anyway-entry")
+				}
 			}
 			if m.waiting < m.waitingPop {
 				m.waitingPop = m.waiting
